@@ -542,6 +542,7 @@ func c09FormatStrings(c *Ctx, rule string) {
 func checkC09Payload(c *Ctx) {
 	c09FormatStrings(c, "R-payload")
 	poolAliasRule(c, "R-frame-owned")
+	poolResetRule(c, "R-pool-reset")
 	c09NoWriteDeadline(c, "R-frame-complete")
 	c09EncoderFramed(c, "R-frame-terminated")
 	// (a) fmt.Fprintf(w, "...data: %s...", payload): payload must come from json.Marshal
